@@ -19,8 +19,7 @@ def bucket(e, entry):
     else:
         f = tb[-1] if tb else None
         where = (Path(f.filename).name + ":" + f.name) if f else "?"
-    attr = entry.split("->")[-1].split(".")[-1].split("(")[0]
-    return "crash:%s@%s:%s" % (name, where, attr)
+    return "crash:%s@%s" % (name, where)
 
 
 def tb_tail(e, n=7):
